@@ -162,6 +162,44 @@ def sampler_case(skind, name, mk, info, n, k, filt):
                 max_paths=96, max_forks_per_site=8, max_decisions=64)
 
 
+def history_case(kind, method, n, boundary, wrap=None):
+    """second use: two shapes A and B of one kind (different symbolic parameters) are sampled in turn with the same
+    method and count -- A, B, A again (and, wrap='translate': through two Translate wrappers sharing the inner object A,
+    then A itself): every sample lies in the set of the object it was asked from (a memo shared between objects or calls,
+    or a result written into a cached tensor, would show in the later samples)"""
+    cname = "history/%s%s/%s/%s/n%d" % ("b" if boundary else "", kind, "via_translate" if wrap else "A_B_A", method, n)
+
+    def body(env):
+        L = env.L
+        a = SH.PRIMS[kind](env, tag="A")
+        b = SH.PRIMS[kind](env, tag="B")
+        for sh in (a, b):
+            env.assume(sh.oset.positive({}, L))
+        if wrap:
+            t1, t2 = SH.translate(env, a, tag="tr1"), SH.translate(env, a, tag="tr2")
+            seq = [t1, t2, t1, a]
+        else:
+            seq = [a, b, a]
+        outs = []
+        for sh in seq:
+            d = sh.dom.boundary if boundary else sh.dom
+            pts = (d.sample_random_uniform if method == "random" else d.sample_grid)(n=n)
+            outs.append((sh, pts.as_tensor, len(pts)))
+        return dict(outs=outs)
+
+    def goals(o, L, env):
+        for j, (sh, pts, m) in enumerate(o["outs"]):
+            yield "row_count[call%d]" % j, m == n
+            for i, p in enumerate(pts):
+                if boundary:
+                    yield "on_boundary[call%d,row%d]" % (j, i), sh.oset.boundary_band(p, {}, L, 0)
+                else:
+                    yield "in_closed_set[call%d,row%d]" % (j, i), sh.oset.closure(p, {}, L, 0)
+
+    return Case(cname, body, goals, family="history/" + kind, params=dict(kind=kind, method=method, n=n, boundary=boundary, wrap=wrap),
+                max_paths=48, max_forks_per_site=6, max_decisions=64)
+
+
 def cases(tier):
     cs = []
     cat = SH.catalog(tier)
@@ -193,6 +231,15 @@ def cases(tier):
     sph = ("Sphere", (lambda env: SH.sphere(env)), dict(kind="Sphere", fam="prim"))
     for n in (1, 2):
         cs.append(domain_case(sph[0], sph[1], sph[2], "grid", n, 0, True))
+    # second use of objects / several objects of one kind in turn
+    for kind in ("Interval", "Circle", "Sphere") + (("Parallelogram",) if not quick else ()):
+        for method in ("grid", "random"):
+            cs.append(history_case(kind, method, 2, True))
+            if kind != "Sphere" or not quick:
+                cs.append(history_case(kind, method, 2, False))
+    for kind in ("Circle",) + (("Interval", "Parallelogram") if not quick else ()):
+        cs.append(history_case(kind, "grid", 3, False, wrap="translate"))
+        cs.append(history_case(kind, "random", 2, False, wrap="translate"))
     # point samplers over a few representative shapes
     reps = [c for c in cat if c[0] in ("Interval", "Circle", "Parallelogram", "Circle[t]", "(Circle-Parallelogram)")]
     for name, mk, info in reps:
